@@ -1,7 +1,8 @@
 #!/bin/sh
-# tools/vet_all.sh <prop>...: full vetting (demo clean/patched, test suite, own check) of /tmp/seeded-out/<prop>/change{1,2}
+# tools/vet_all.sh <outdir> <prop>...: full vetting (demo clean/patched, test suite, own check) of <outdir>/<prop>/change{1,2}
+out=$1; shift
 for p in "$@"; do for k in 1 2; do
-  d=/tmp/seeded-out/$p/change$k
+  d=$out/$p/change$k
   [ -f $d/patch.diff ] || continue
-  /verif/tools/vet_seeded.py $d > /tmp/seeded-out/vet-$p-$k.json 2>&1
+  /verif/tools/vet_seeded.py $d > $out/vet-$p-$k.json 2>&1
 done; done
